@@ -194,6 +194,61 @@ def incremental(chk):
             sys.excepthook = hook
     chk.ob("rtc/line-by-line input: more input is requested exactly while the accumulated text is incomplete", bad is None, "rtc", "bounded",
            detail=str(bad))
+    # the same against an independent definition of `incomplete`: the nesting recogniser written from docs/syntax.rst
+    # (hv/props/_c19_scan.py, no hy import).  Generated well-formed programs are cut where a user could press Enter; the text so far
+    # is pushed to a real REPL, which must ask for more input exactly when the recogniser says a construct is still open; the command
+    # compiler must not ask for more once the text is complete.
+    from hv.props import _c19_scan as sc
+    progs2 = sc.programs(chk.seed + 40, 300 if chk.tier == "quick" else 3000)
+    step = 5 if chk.tier == "quick" else 2
+    bad_open = bad_done = None
+    n_open = n_done = k = 0
+    whys = {}
+    r = new_repl()
+    cc = r.compile
+    hook = sys.excepthook
+    sys.excepthook = lambda *a: None
+    try:
+        with contextlib.redirect_stdout(io.StringIO()), contextlib.redirect_stderr(io.StringIO()):
+            for p in progs2:
+                for i in range(1, len(p) + 1):
+                    k += 1
+                    if k % step:
+                        continue
+                    if i < len(p) and p[i] not in sc.WS + sc.NON_IDENT and sc.classify(p[:i])[0] in ("ATOM", "ATOM_IN_OPEN"):
+                        continue              # Enter in the middle of an atom makes a different (possibly malformed) atom: no claim
+                    cls, why, top = sc.classify(p[:i] + "\n", want_start=True)
+                    if cls == "OPEN":
+                        acc = p[top:i]        # the unclosed top-level form alone (earlier complete forms would be evaluated first)
+                        n_open += 1
+                        whys[why] = whys.get(why, 0) + 1
+                        r.resetbuffer()
+                        more = r.push(acc) if "\n" not in acc else r.runsource(acc)
+                        r.resetbuffer()
+                        if more is not True and bad_open is None:
+                            bad_open = (acc, why)
+                    elif cls == "BETWEEN" and p[:i].strip():
+                        n_done += 1
+                        try:
+                            out = cc(p[:i] + "\n", "<c40>", "exec")
+                        except SyntaxError:
+                            out = "error"
+                        except Exception as e:  # noqa: BLE001
+                            out = "error"
+                        if out is None and bad_done is None:
+                            bad_done = p[:i]
+                    chk.case(("cut", k))
+    finally:
+        sys.excepthook = hook
+    chk.ob("rtc/generated programs cut where Enter could be pressed: the REPL asks for more input whenever the nesting recogniser finds an "
+           "unclosed construct", bad_open is None and n_open > 50, "rtc", "bounded",
+           detail=f"{n_open} unclosed prefixes over {len(whys)} kinds of construct" if bad_open is None else
+           f"REPL did not ask for more input after {bad_open[0]!r} (unclosed: {bad_open[1]})",
+           witness={"input": bad_open[0]} if bad_open else None, replay={"confirmed": True, "input": bad_open[0]} if bad_open else None)
+    chk.ob("rtc/generated programs cut between top-level forms: the command compiler does not ask for more input", bad_done is None and n_done > 50,
+           "rtc", "bounded", detail=f"{n_done} complete prefixes" if bad_done is None else f"asked for more input after the complete text {bad_done!r}",
+           witness={"input": bad_done} if bad_done else None, replay={"confirmed": True, "input": bad_done} if bad_done else None)
+    chk.extra["incremental_unclosed_kinds"] = whys
     # random histories on a real REPL
     inputs = [("(+ 1 1)", "v"), ("None", "n"), ("(/ 1 0)", "f"), ("(undefined-name-xyz)", "f"), ('"s"', "v"), ("(setv q 5)", "n"), ("[1 2]", "v"), ("(+ 1", "i")]
     bad = None
